@@ -545,7 +545,7 @@ impl Matcher for KittyKeyboardMatcher {
             Some(codes) => {
                 // TODO: decode alternative keys
                 let mut codes = numbers_decode(codes, b':');
-                keyboard_decode_key(codes.next().unwrap_or(1))?
+                keyboard_decode_key(codes.next().unwrap_or(Some(1))?)?
             }
             None => return None,
         };
@@ -554,11 +554,11 @@ impl Matcher for KittyKeyboardMatcher {
         let mode = match fields.next() {
             Some(modes) => {
                 let mut modes = numbers_decode(modes, b':');
-                let mode = match modes.next() {
-                    Some(mode) if mode > 1 => KeyMod::from_bits((mode - 1) as u32),
+                let mode = match modes.next().unwrap_or(Some(1))? {
+                    mode if mode > 1 => KeyMod::from_bits(u32::try_from(mode - 1).ok()?),
                     _ => KeyMod::EMPTY,
                 };
-                let event_type = modes.next().unwrap_or(0);
+                let event_type = modes.next().unwrap_or(Some(0))?;
                 // TODO: decode press/release/repeat
                 if event_type != 0 {
                     return None;
@@ -615,8 +615,8 @@ impl Matcher for DecModeMatcher {
         // "\x1b[?{mode};{status}$y"
         let mut nums = numbers_decode(&data[3..data.len() - 2], b';');
         Some(TerminalEvent::DecMode {
-            mode: crate::terminal::DecMode::from_usize(nums.next()?)?,
-            status: DecModeStatus::from_usize(nums.next()?)?,
+            mode: crate::terminal::DecMode::from_usize(nums.next()??)?,
+            status: DecModeStatus::from_usize(nums.next()??)?,
         })
     }
 }
@@ -643,8 +643,8 @@ impl Matcher for DeviceAttrsMatcher {
     fn decode(&self, data: &[u8]) -> Option<Self::Item> {
         Some(TerminalEvent::DeviceAttrs(
             numbers_decode(&data[3..data.len() - 1], b';')
-                .filter(|v| v > &0)
-                .collect(),
+                .filter(|v| v != &Some(0))
+                .collect::<Option<_>>()?,
         ))
     }
 }
@@ -808,9 +808,9 @@ impl Matcher for MouseEventMatcher {
     fn decode(&self, data: &[u8]) -> Option<Self::Item> {
         // "\x1b[<{event};{row};{col}(m|M)"
         let mut nums = numbers_decode(&data[3..data.len() - 1], b';');
-        let event = nums.next()?;
-        let col = nums.next()?.checked_sub(1)?;
-        let row = nums.next()?.checked_sub(1)?;
+        let event = nums.next()??;
+        let col = nums.next()??.checked_sub(1)?;
+        let row = nums.next()??.checked_sub(1)?;
 
         let mut mode = KeyMod::from_bits(((event >> 2) & 7) as u32);
         if data[data.len() - 1] == b'M' {
@@ -949,8 +949,8 @@ impl Matcher for CursorPositionMatcher {
         // "\x1b[{row};{col}R"
         let mut nums = numbers_decode(&data[2..data.len() - 1], b';');
         Some(TerminalEvent::CursorPosition(Position {
-            row: nums.next()?.checked_sub(1)?,
-            col: nums.next()?.checked_sub(1)?,
+            row: nums.next()??.checked_sub(1)?,
+            col: nums.next()??.checked_sub(1)?,
         }))
     }
 }
@@ -998,8 +998,8 @@ impl Matcher for TermSizeMatcher {
                 b'8' => &mut size.cells,
                 _ => &mut size.pixels,
             };
-            part.height = nums.next()?;
-            part.width = nums.next()?;
+            part.height = nums.next()??;
+            part.width = nums.next()??;
         }
         Some(TerminalEvent::Size(size))
     }
@@ -1318,9 +1318,10 @@ fn key_value_decode(sep: u8, data: &[u8]) -> impl Iterator<Item = (&[u8], &[u8])
     })
 }
 
-/// Semi-colon separated positive numbers
-fn numbers_decode(data: &[u8], sep: u8) -> impl Iterator<Item = usize> + '_ {
-    data.split(move |b| *b == sep).filter_map(number_decode)
+/// Separated positive numbers, `None` for a field that is not a number or does not fit
+/// (such field must not be skipped, values that follow it would take its place)
+fn numbers_decode(data: &[u8], sep: u8) -> impl Iterator<Item = Option<usize>> + '_ {
+    data.split(move |b| *b == sep).map(number_decode)
 }
 
 // Decode positive integer number
